@@ -12,9 +12,22 @@ use log::{error, warn};
 fn main() {
     let args = Args::parse();
 
+    // A panic outside of the worker jobs (say, while a malformed source is being
+    // loaded) ends the build the way a panic inside a job does: as a reported
+    // error with a failure status, not as an unwinding main thread.
+    let result = std::panic::catch_unwind(std::panic::AssertUnwindSafe(|| run(args)))
+        .unwrap_or_else(|payload| {
+            let msg = payload
+                .downcast_ref::<&str>()
+                .map(|s| s.to_string())
+                .or_else(|| payload.downcast_ref::<String>().cloned())
+                .unwrap_or_else(|| "unknown panic".to_string());
+            Err(Error::Panic(msg))
+        });
+
     // catch and print errors manually, to avoid just seeing the Debug impls
     // The default log level is warn so the user will see it unless they specifically turned off logging
-    if let Err(e) = run(args) {
+    if let Err(e) = result {
         let mut error_displayed = false;
         let mut additional = "";
         if let Error::Backend(fontbe::error::Error::FeaCompileError(e)) = &e {
